@@ -169,7 +169,8 @@ def cli_case(arg):
         if rc_ and rng.random() < 0.5:
             roots = [rc_[0].oid] * rng.randint(1, 2)
         sel = rng.choice([[], ["--branches"], ["--tags", "--branches"]]) if roots or rng.random() < 0.5 else []
-        argv = ["--json", "--names=" + names] + sel + roots
+        fmt_ = rng.choice([["--json"], ["--json"], ["--json", "--json-version=2"], ["-v"], []])
+        argv = fmt_ + ["--names=" + names] + (["--show-refs"] if rng.random() < 0.5 else []) + sel + roots
         r0 = R.sizer(sz, gitdir, argv + ["--no-progress"], tmpdir=d)
         out["evals"] += 1
         if r0.rc != 0:
@@ -178,7 +179,11 @@ def cli_case(arg):
         f0, _, rest0 = P.parse_stderr(r0.err)
         if f0 or b"Processing" in r0.err:
             out["viol"].append(("no-progress-emits-frames", {"stderr": r0.err[:200]}))
-        js, _ = P.parse_json(r0.out)
+        if "--json" in argv and "--json-version=2" not in argv:
+            js, _ = P.parse_json(r0.out)
+        else:
+            rj = R.sizer(sz, gitdir, ["--json", "--no-progress", "--names=" + names] + sel + roots, tmpdir=d)
+            js, _ = P.parse_json(rj.out)
         # slow children so that phases last several meter periods
         rules = []
         if idx % 2 == 0:
